@@ -27,8 +27,9 @@ def write_replay(pid, payload):
   return path
 
 
-def write_evidence(pid, ev):
-  d = os.path.join(VERIF, 'evidence')
+def write_evidence(pid, ev, scratch=False):
+  # runs against a scratch copy (--repo DIR) must not overwrite the evidence for /repo
+  d = os.path.join(VERIF, 'evidence', 'scratch') if scratch else os.path.join(VERIF, 'evidence')
   os.makedirs(d, exist_ok=True)
   path = os.path.join(d, '%s.json' % pid)
   json.dump(ev, open(path, 'w'), indent=1, default=str)
